@@ -152,3 +152,43 @@ package r1cs
 //@   lemma @select-table isBool(denR(builder, i0)) ==> fadd(fmul(denR(builder, i0), fsub(denR(builder, i1), denR(builder, i2))), denR(builder, i2)) == (denR(builder, i0) == f1 ? denR(builder, i1) : denR(builder, i2))
 //@   lemma @select-zero isBool(denR(builder, i0)) ==> fmul(fsub(f1, denR(builder, i0)), denR(builder, i2)) == (denR(builder, i0) == f1 ? f0 : denR(builder, i2))
 //@   ensures @select isBool(denR(builder, i0)) && denR(builder, result) == (denR(builder, i0) == f1 ? denR(builder, i1) : denR(builder, i2))
+
+//@ contract (*builder).mulConstant
+//@   trusted "not verified: coefficient-wise scaling of (a clone of) the expression"
+//@   assigns *builder.cs
+//@   ensures allocated(result) && lsum(builder, result) == fmul(old(lsum(builder, v1)), lambda)
+
+//@ contract (*builder).DivUnchecked
+//@   props C05
+//@   assigns *builder.cs
+//@   requires builder != nil && liveV(i1) && liveV(i2)
+//   a one-term expression on the ONE wire denotes its coefficient; c * (1/d) * d = c
+//@   lemma @const-result isLE(result) && len(as(result, "expr.LinearExpression[E]")) == 1 && as(result, "expr.LinearExpression[E]")[0].VID == 0 ==> denR(builder, result) == as(result, "expr.LinearExpression[E]")[0].Coeff
+//@   lemma @inv-const denR(builder, i2) != f0 ==> fmul(fmul(finv(denR(builder, i2)), denR(builder, i1)), denR(builder, i2)) == denR(builder, i1) && fmul(fmul(denR(builder, i1), finv(denR(builder, i2))), denR(builder, i2)) == denR(builder, i1)
+//@   ensures @quotient fmul(denR(builder, result), denR(builder, i2)) == denR(builder, i1)
+
+//@ contract (*builder).Div
+//@   props C05
+//@   assigns *builder.cs
+//@   requires builder != nil && liveV(i1) && liveV(i2)
+//@   lemma @const-result isLE(result) && len(as(result, "expr.LinearExpression[E]")) == 1 && as(result, "expr.LinearExpression[E]")[0].VID == 0 ==> denR(builder, result) == as(result, "expr.LinearExpression[E]")[0].Coeff
+//@   lemma @inv-const denR(builder, i2) != f0 ==> fmul(fmul(finv(denR(builder, i2)), denR(builder, i1)), denR(builder, i2)) == denR(builder, i1) && fmul(fmul(denR(builder, i1), finv(denR(builder, i2))), denR(builder, i2)) == denR(builder, i1)
+//   x*y = 1 and z*y = r give r*x = z
+//@   lemma @inv-wire fmul(lsum(builder, v2), lsum(builder, v2Inv)) == f1 && fmul(lsum(builder, v1), lsum(builder, v2Inv)) == lsum(builder, res) ==> fmul(lsum(builder, res), lsum(builder, v2)) == lsum(builder, v1)
+//@   ensures @nonzero denR(builder, i2) != f0
+//@   ensures @quotient fmul(denR(builder, result), denR(builder, i2)) == denR(builder, i1)
+
+//@ contract (*builder).Lookup2
+//@   props C05
+//@   assigns *builder.cs, *builder.mtBooleans
+//@   requires builder != nil && liveV(b0) && liveV(b1) && liveV(i0) && liveV(i1) && liveV(i2) && liveV(i3)
+//   truth table of (i2-i0)*s1 + ((i3+i0-i2-i1)*s1 + i1 - i0)*s0 + i0 over s0, s1 in {0,1}
+//@   lemma @table isBool(denR(builder, b0)) && isBool(denR(builder, b1)) ==> fadd(fadd(fmul(fsub(denR(builder, i2), denR(builder, i0)), denR(builder, b1)), fmul(fsub(fadd(fmul(fsub(fsub(fadd(denR(builder, i3), denR(builder, i0)), denR(builder, i2)), denR(builder, i1)), denR(builder, b1)), denR(builder, i1)), denR(builder, i0)), denR(builder, b0))), denR(builder, i0)) == (denR(builder, b1) == f1 ? (denR(builder, b0) == f1 ? denR(builder, i3) : denR(builder, i2)) : (denR(builder, b0) == f1 ? denR(builder, i1) : denR(builder, i0)))
+//@   ensures @bits isBool(denR(builder, b0)) && isBool(denR(builder, b1))
+//@   ensures @lookup denR(builder, result) == (denR(builder, b1) == f1 ? (denR(builder, b0) == f1 ? denR(builder, i3) : denR(builder, i2)) : (denR(builder, b0) == f1 ? denR(builder, i1) : denR(builder, i0)))
+
+//@ contract (*builder).AssertIsDifferent
+//@   props C05
+//@   assigns *builder.cs, *builder.mtBooleans
+//@   requires builder != nil && liveV(i1) && liveV(i2)
+//@   ensures @different denR(builder, i1) != denR(builder, i2)
